@@ -28,6 +28,7 @@ PROPS = {
     },
     "C12": {
         "lanes": [
+            {"lane": "robust", "quick": 60, "thorough": 400, "pubwork": True},   # Pack that cannot read its walk root (no descriptor, unreadable directory) returns an error
             {"lane": "unpack-faults", "quick": 12, "thorough": 40},
             {"lane": "unpack", "quick": 1500, "thorough": 30000},   # policy rejections are reported; success means the whole archive
             {"lane": "builder-faults", "quick": 40, "thorough": 400},
@@ -40,6 +41,7 @@ PROPS = {
     },
     "C02": {
         "lanes": [
+            {"lane": "robust", "quick": 60, "thorough": 400, "pubwork": True},   # resource limits: Unpack under a low descriptor limit keeps every entry
             {"lane": "pack", "quick": 2500, "thorough": 60000},
             {"lane": "unpack", "quick": 1200, "thorough": 20000},
             {"lane": "pack-spelling", "quick": 40, "thorough": 1000},   # a reused Packer still reproduces the tree
@@ -115,7 +117,7 @@ PROPS = {
     },
     "C19": {
         "lanes": [
-            {"lane": "robust", "quick": 240, "thorough": 4000},
+            {"lane": "robust", "quick": 240, "thorough": 4000, "pubwork": True},
             {"lane": "ignore", "quick": 2000, "thorough": 40000},
             {"lane": "addr", "quick": 3000, "thorough": 50000},
             {"lane": "unpack", "quick": 1500, "thorough": 30000},
